@@ -66,6 +66,10 @@ pub fn exec(case: &[i64]) -> Outcome {
       let bytes = take_bytes(&mut v).unwrap();
       let s = match String::from_utf8(bytes.clone()) { Ok(s) => s, Err(_) => return Outcome::new(vec![0]).class("not-utf8").trivial() };
       let expect = ref_parse(&bytes);
+      // every other route from a string must agree with parse: FromStr, TryFrom<&str>, TryFrom<String>, serde (JSON string)
+      let routes: [Option<Timestamp>; 4] = { use std::str::FromStr; [Timestamp::from_str(&s).ok(), Timestamp::try_from(s.as_str()).ok(), Timestamp::try_from(s.clone()).ok(), serde_json::from_value::<Timestamp>(serde_json::Value::String(s.clone())).ok()] };
+      let base = Timestamp::parse(&s).ok();
+      if routes.iter().any(|r| *r != base) { return Outcome::new(vec![-8]).class("routes-disagree").fail("FromStr / TryFrom / serde disagree with Timestamp::parse on the same string"); }
       match Timestamp::parse(&s) {
         Err(_) => {
           let o = Outcome::new(vec![0]).class("parse-err");
